@@ -123,6 +123,12 @@ func gen(tier string, seed uint64, idx int) interface{} {
 					known = true
 				}
 			}
+			if op.Type == refmqtt.PUBLISH && op.QoS > 0 {
+				// retransmissions: half of the registrations under an identifier
+				// that is in flight, and a tenth of the others, carry DUP (the
+				// queue keeps the request it registered first)
+				op.Dup = (known && r.Bool(1, 2)) || r.Bool(1, 10)
+			}
 			if !known && op.Type == reqType && !(op.Type == refmqtt.PUBLISH && op.QoS == 0) && reqType != refmqtt.PINGREQ {
 				inflight = append(inflight, op.ID)
 				stage[op.ID] = 0
